@@ -31,7 +31,12 @@ struct VC { uint32_t c[MAXT] = {0}; void join(const VC& o) { for (int i = 0; i <
   bool leq(const VC& o) const { for (int i = 0; i < MAXT; i++) if (c[i] > o.c[i]) return false; return true; } };
 
 // weak memory: one message per store
-struct Msg { uint64_t val; long ts; long step; VC rel; bool has_rel; int tid; };
+typedef std::map<uintptr_t, long> View;   // location -> timestamp of the newest message known
+static void vjoin(View& a, const View& b) { for (auto& kv : b) { long& x = a[kv.first]; if (kv.second > x) x = kv.second; } }
+// one message per store: value, timestamp (= position in modification order), happens-before clock and view it releases
+struct RelHead { VC rel; View relview; };
+// heads: for every thread h, the join of what the release operations of h that head a release sequence containing this message released
+struct Msg { uint64_t val; long ts; long step; VC rel; View relview; bool has_rel; int tid; std::map<int, RelHead> heads; };
 struct ALoc { std::vector<Msg> msgs; };
 struct PlainShadow { VC w; int wt = -1; uint32_t wclk = 0; VC r; bool any = false; };
 
@@ -52,7 +57,9 @@ struct Th {
   VC acq_pend;  // joined at the next acquire fence
   VC rel_fence; // snapshot at the last release fence
   bool has_rel_fence = false;
-  std::map<uintptr_t, long> view;  // weak mode: per location minimal timestamp
+  View view;        // weak mode: what this thread must at least see (per location timestamp)
+  View acq_view;    // joined into view at the next acquire fence
+  View rel_view;    // snapshot of view at the last release fence
 };
 
 struct G {
@@ -80,7 +87,7 @@ struct G {
   // race / weak
   std::map<uintptr_t, ALoc> alocs;
   std::map<uintptr_t, PlainShadow> shadow;
-  VC sc_vc;
+  View sc_view;     // global view exchanged by seq_cst fences / accesses (visibility only, no happens-before)
   long ts = 0;
   WStats ws;
   uint64_t wrng = 1;
@@ -272,23 +279,43 @@ VC& clock_of(int me) { return me > 0 ? tvc(me) : main_vc; }
 
 uint64_t wnext() { G& G_ = gg(); G_.wrng ^= G_.wrng << 13; G_.wrng ^= G_.wrng >> 7; G_.wrng ^= G_.wrng << 17; return G_.wrng; }
 
-// A store (or the write part of an RMW) appends a message.
+// Happens-before (vector clocks, used for the race check) follows the C++ rules only: release/acquire
+// on the same message, C++11 release sequences (RMWs of any thread and later stores of the releasing thread),
+// fence-fence/fence-atomic synchronisation through a message.  seq_cst fences and accesses create NO happens-before by themselves; they only constrain
+// which messages later loads may read (views), as in view-based operational models.
+static View main_view;
+View& view_of(int me) { return me > 0 ? gg().th[me]->view : main_view; }
+
+// A store (or the write part of an RMW) appends a message at the end of the modification order.
 void hb_store(int me, uintptr_t a, uint64_t val, int mo, bool rmw, const Msg* read_from) {
   G& G_ = gg();
   if (!(G_.cfg.race || G_.cfg.weak)) return;
   ALoc& L = G_.alocs[a];
   Msg m; m.val = val; m.ts = ++G_.ts; m.step = G_.steps; m.tid = me; m.has_rel = false;
   VC& c = clock_of(me);
+  View& vw = view_of(me);
   if (me >= 0 && me < MAXT) c.c[me]++;
-  if (is_rel(mo)) { m.rel = c; m.has_rel = true; }
-  else if (me > 0 && G_.th[me]->has_rel_fence) { m.rel = G_.th[me]->rel_fence; m.has_rel = true; }
-  if (rmw && read_from && read_from->has_rel) { if (m.has_rel) m.rel.join(read_from->rel); else { m.rel = read_from->rel; m.has_rel = true; } }  // release sequence
-  if (mo == 5) { G_.sc_vc.join(c); c.join(G_.sc_vc); if (m.has_rel) m.rel.join(c); }
+  vw[a] = m.ts;
+  if (mo == 5) { vjoin(vw, G_.sc_view); G_.sc_view = vw; }
+  // C++11 release sequences ([intro.races] up to C++17, the standard xenium is written against): the sequence headed
+  // by a release operation A continues through later stores of A's own thread and through RMWs of any thread, as long
+  // as they are contiguous in the modification order.  mo = execution order here, so the predecessor is the last message.
+  const Msg* pred = L.msgs.empty() ? nullptr : &L.msgs.back();
+  if (pred) {
+    if (rmw) m.heads = pred->heads;
+    else { auto h = pred->heads.find(me); if (h != pred->heads.end()) m.heads[me] = h->second; }
+  }
+  (void)read_from;
+  bool own = false; VC ownrel; View ownview;
+  if (is_rel(mo)) { ownrel = c; ownview = vw; own = true; }
+  else if (me > 0 && G_.th[me]->has_rel_fence) { ownrel = G_.th[me]->rel_fence; ownview = G_.th[me]->rel_view; ownview[a] = m.ts; own = true; }
+  if (own) { RelHead& h = m.heads[me]; h.rel.join(ownrel); vjoin(h.relview, ownview); }
+  for (auto& kv : m.heads) { m.rel.join(kv.second.rel); vjoin(m.relview, kv.second.relview); m.has_rel = true; }
+  if (m.has_rel) m.relview[a] = m.ts;
   L.msgs.push_back(m);
-  if (me > 0) G_.th[me]->view[a] = m.ts;
 }
 
-// A load picks a message; returns pointer to the message read (nullptr if location has no history).
+// A load picks a message; returns pointer to the message read (nullptr if the location has no history).
 const Msg* hb_load(int me, uintptr_t a, int mo, bool must_latest, uint64_t cur_val, uint64_t* out) {
   G& G_ = gg();
   *out = cur_val;
@@ -296,21 +323,18 @@ const Msg* hb_load(int me, uintptr_t a, int mo, bool must_latest, uint64_t cur_v
   auto it = G_.alocs.find(a);
   if (it == G_.alocs.end() || it->second.msgs.empty()) return nullptr;
   ALoc& L = it->second;
+  View& vw = view_of(me);
+  if (mo == 5) vjoin(vw, G_.sc_view);
   size_t idx = L.msgs.size() - 1;
-  if (G_.cfg.weak && !must_latest && me > 0 && mo != 5) {
-    // candidates: messages not older than the thread's view of a, not overwritten more than W steps ago
-    long minview = 0; auto v = G_.th[me]->view.find(a); if (v != G_.th[me]->view.end()) minview = v->second;
+  if (G_.cfg.weak && !must_latest && me > 0) {
+    // candidates: messages not older than the thread's view of a, and not overwritten more than W steps ago
+    long minview = 0; auto v = vw.find(a); if (v != vw.end()) minview = v->second;
     size_t lo = idx;
     while (lo > 0) {
       const Msg& prev = L.msgs[lo - 1];
-      const Msg& over = L.msgs[lo];  // message that overwrote prev
+      const Msg& over = L.msgs[lo];  // the message that overwrote prev
       if (prev.ts < minview) break;
       if (G_.steps - over.step > G_.cfg.weak_window) break;
-      // coherence with happens-before: if the overwriting message happens-before this load, prev is not readable
-      if (over.tid >= 0 && over.tid < MAXT && clock_of(me).c[over.tid] >= 0) {
-        // over is visible through hb iff thread's clock contains over's writer clock at write time;
-        // approximated by the per-location view (updated by hb joins below)
-      }
       lo--;
     }
     if (lo < idx) { size_t pick = lo + (size_t)(wnext() % (idx - lo + 1)); if (pick != idx) G_.ws.stale_reads++; idx = pick; }
@@ -318,13 +342,13 @@ const Msg* hb_load(int me, uintptr_t a, int mo, bool must_latest, uint64_t cur_v
   G_.ws.loads++;
   const Msg& m = L.msgs[idx];
   *out = m.val;
-  if (me > 0) { long& v = G_.th[me]->view[a]; if (m.ts > v) v = m.ts; }
+  { long& x = vw[a]; if (m.ts > x) x = m.ts; }
   VC& c = clock_of(me);
   if (m.has_rel) {
-    if (is_acq(mo)) c.join(m.rel);
-    else if (me > 0) G_.th[me]->acq_pend.join(m.rel);
+    if (is_acq(mo)) { c.join(m.rel); vjoin(vw, m.relview); }
+    else if (me > 0) { G_.th[me]->acq_pend.join(m.rel); vjoin(G_.th[me]->acq_view, m.relview); }
   }
-  if (mo == 5) { c.join(G_.sc_vc); }
+  if (mo == 5) G_.sc_view = vw;
   return &L.msgs[idx];
 }
 
@@ -332,32 +356,12 @@ void hb_fence(int me, int mo) {
   G& G_ = gg();
   if (!(G_.cfg.race || G_.cfg.weak) || me <= 0) return;
   Th* t = G_.th[me];
-  if (is_acq(mo)) t->vc.join(t->acq_pend);
-  if (mo == 5) { G_.sc_vc.join(t->vc); t->vc.join(G_.sc_vc); }
-  if (is_rel(mo)) { t->vc.c[me]++; t->rel_fence = t->vc; t->has_rel_fence = true; }
+  if (is_acq(mo)) { t->vc.join(t->acq_pend); vjoin(t->view, t->acq_view); }
+  if (mo == 5) { vjoin(t->view, G_.sc_view); G_.sc_view = t->view; }
+  if (is_rel(mo)) { t->vc.c[me]++; t->rel_fence = t->vc; t->rel_view = t->view; t->has_rel_fence = true; }
 }
 
-// when a thread's hb clock grows, its per-location views must cover every message it now knows of.
-// We approximate by updating views lazily: before a weak load, raise the view of `a` to the newest
-// message whose writer clock is contained in the reader's clock.
-void hb_refresh_view(int me, uintptr_t a) {
-  G& G_ = gg();
-  if (!G_.cfg.weak || me <= 0) return;
-  auto it = G_.alocs.find(a);
-  if (it == G_.alocs.end()) return;
-  VC& c = G_.th[me]->vc;
-  long& v = G_.th[me]->view[a];
-  auto& ms = it->second.msgs;
-  for (size_t i = ms.size(); i-- > 0;) {
-    const Msg& m = ms[i];
-    if (m.ts <= v) break;
-    bool known = false;
-    if (m.tid == me) known = true;
-    else if (m.tid >= 0 && m.tid < MAXT && m.has_rel) known = m.rel.c[m.tid] <= c.c[m.tid];
-    else if (m.tid >= 0 && m.tid < MAXT) known = false;
-    if (known) { v = m.ts; break; }
-  }
-}
+void hb_refresh_view(int, uintptr_t) {}
 
 void race_plain(uintptr_t a, size_t n, bool write) {
   G& G_ = gg();
@@ -632,6 +636,7 @@ int spawn(std::function<void()> body) {
   sem_init(&t->sem, 0, 0);
   // a new thread starts with the spawner's (main's) knowledge
   t->vc = main_vc; if (id < MAXT) t->vc.c[id] = 1;
+  t->view = main_view;
   G_.th[id] = t;
   return id;
 }
@@ -642,7 +647,7 @@ Result run(Scheduler& s) {
     RtGuard rg;
     G_.sched = &s;
     main_vc.c[0]++;
-    for (int i = 1; i <= G_.nth; i++) { G_.th[i]->vc.join(main_vc); G_.th[i]->th = std::thread(trampoline, i); }
+    for (int i = 1; i <= G_.nth; i++) { G_.th[i]->vc.join(main_vc); vjoin(G_.th[i]->view, main_view); G_.th[i]->th = std::thread(trampoline, i); }
     G_.running = true;
     uint32_t en = enabled_mask();
     if (en) {
@@ -654,7 +659,7 @@ Result run(Scheduler& s) {
       while (sem_wait(&G_.main_sem) != 0) {}
     }
     G_.running = false;
-    if (!G_.solo) for (int i = 1; i <= G_.nth; i++) { G_.th[i]->th.join(); main_vc.join(G_.th[i]->vc); }
+    if (!G_.solo) for (int i = 1; i <= G_.nth; i++) { G_.th[i]->th.join(); main_vc.join(G_.th[i]->vc); vjoin(main_view, G_.th[i]->view); }
     G_.res.status = G_.status; G_.res.detail = G_.detail; G_.res.steps = G_.steps;
     G_.res.thread_steps.assign(1, 0);
     for (int i = 1; i <= G_.nth; i++) G_.res.thread_steps.push_back(G_.th[i]->steps);
@@ -685,6 +690,7 @@ void yield_point() {
 }
 void step_point() { G& G_ = gg(); if (!G_.active || tl_tid <= 0 || !G_.running) return; sched_point(); G_.th[tl_tid]->ro = 0; G_.th[tl_tid]->watch.clear(); }
 bool at_boundary(int tid) { G& G_ = gg(); return tid <= 0 || tid > G_.nth || G_.th[tid]->at_start || G_.th[tid]->finished; }
+void clock_snapshot(uint32_t out[16]) { VC& c = clock_of(tl_tid < 0 ? 0 : tl_tid); for (int i = 0; i < MAXT; i++) out[i] = c.c[i]; }
 int self() { return tl_tid; }
 uint64_t choose(uint64_t n) {
   G& G_ = gg();
@@ -796,7 +802,7 @@ int model_lock(pthread_mutex_t* m, bool try_only) {
   }
   G_.mutex_owner[m] = me;
   // lock acquisition synchronises with the previous unlock
-  if (G_.cfg.race || G_.cfg.weak) { ALoc& L = G_.alocs[(uintptr_t)m]; if (!L.msgs.empty() && L.msgs.back().has_rel) clock_of(me).join(L.msgs.back().rel); }
+  if (G_.cfg.race || G_.cfg.weak) { ALoc& L = G_.alocs[(uintptr_t)m]; if (!L.msgs.empty() && L.msgs.back().has_rel) { clock_of(me).join(L.msgs.back().rel); vjoin(view_of(me), L.msgs.back().relview); } }
   record(K_LOCK, (uintptr_t)m, 0, 0, 0, 0, 0);
   G_.th[me]->ro = 0; G_.th[me]->watch.clear();
   return 0;
@@ -807,7 +813,7 @@ int model_unlock(pthread_mutex_t* m) {
   sched_point();
   RtGuard rg;
   G_.mutex_owner[m] = 0;
-  if (G_.cfg.race || G_.cfg.weak) { ALoc& L = G_.alocs[(uintptr_t)m]; Msg ms; ms.val = 0; ms.ts = ++G_.ts; ms.step = G_.steps; ms.tid = me; ms.has_rel = true; clock_of(me).c[me]++; ms.rel = clock_of(me); L.msgs.push_back(ms); }
+  if (G_.cfg.race || G_.cfg.weak) { ALoc& L = G_.alocs[(uintptr_t)m]; Msg ms; ms.val = 0; ms.ts = ++G_.ts; ms.step = G_.steps; ms.tid = me; ms.has_rel = true; clock_of(me).c[me]++; ms.rel = clock_of(me); ms.relview = view_of(me); L.msgs.push_back(ms); }
   for (int i = 1; i <= G_.nth; i++) if (G_.th[i]->mutex_wait && G_.th[i]->waiting_mutex == m) { G_.th[i]->mutex_wait = 0; G_.th[i]->waiting_mutex = nullptr; }
   record(K_UNLOCK, (uintptr_t)m, 0, 0, 0, 0, 0);
   G_.th[me]->ro = 0; G_.th[me]->watch.clear();
